@@ -24,6 +24,10 @@ type vReplayFile struct {
 	Items   []vReplayItem     `json:"items"`
 }
 
+// vStdout is the process's real standard output (harnesses may redirect
+// os.Stdout to a recording sink).
+var vStdout = os.Stdout
+
 var (
 	vReplay  vReplayFile
 	vPos     int
@@ -49,7 +53,7 @@ func vNext(kind string) vReplayItem {
 	it := vReplay.Items[vPos]
 	vPos++
 	if it.K != kind {
-		fmt.Printf("VDIVERGE want %s got %s at %d\n", kind, it.K, vPos-1)
+		fmt.Fprintf(vStdout, "VDIVERGE want %s got %s at %d\n", kind, it.K, vPos-1)
 	}
 	return it
 }
@@ -67,7 +71,7 @@ func vString(max int) string {
 func vStringN(n int) string { return vString(n) }
 func vAssume(c bool) {
 	if !c {
-		fmt.Println("VASSUME-FALSE")
+		fmt.Fprintln(vStdout, "VASSUME-FALSE")
 		panic(vStop{})
 	}
 }
@@ -77,7 +81,7 @@ type vStop struct{}
 func vAssert(c bool, label string) {
 	if !c {
 		VFailed = append(VFailed, label)
-		fmt.Printf("VFAIL %s\n", label)
+		fmt.Fprintf(vStdout, "VFAIL %s\n", label)
 		if vKnownKey != "" {
 			return
 		}
@@ -89,7 +93,7 @@ var vKnownKey string
 func vCover(label string)     {}
 func vConcrete(x int64) int64 { return x }
 func vIsEngine() bool         { return false }
-func vOut(s string)           { fmt.Printf("VOUT %q\n", s) }
+func vOut(s string)           { fmt.Fprintf(vStdout, "VOUT %q\n", s) }
 func vKnown(key string)       { vKnownKey = key }
 func vParam(name string, def int) int {
 	if v, ok := vReplay.Params[name]; ok {
@@ -102,7 +106,7 @@ func vParam(name string, def int) int {
 func VRun(name string) {
 	h, ok := vHarnesses[name]
 	if !ok {
-		fmt.Println("VNOHARNESS", name)
+		fmt.Fprintln(vStdout, "VNOHARNESS", name)
 		os.Exit(3)
 	}
 	reps := 1
@@ -114,7 +118,7 @@ func VRun(name string) {
 		vKnownKey = ""
 		vRunOnce(h)
 	}
-	fmt.Println("VDONE")
+	fmt.Fprintln(vStdout, "VDONE")
 }
 
 func vRunOnce(h func()) {
@@ -123,7 +127,7 @@ func vRunOnce(h func()) {
 			if _, stop := r.(vStop); stop {
 				return
 			}
-			fmt.Printf("VPANIC %v\n", r)
+			fmt.Fprintf(vStdout, "VPANIC %v\n", r)
 		}
 	}()
 	h()
